@@ -33,7 +33,7 @@ fn plan(tier: Tier, _seed: u64) -> Plan {
 		shards: 8,
 		case_timeout_s: 240,
 		level: "exploration",
-		rule: "exhaustive part: for n = 0..5 items every one of the n! completion orders is forced with a turnstile for map_blob_parallel, filter_map_blob_parallel (every retain mask, n <= 4) and from_coord_iter_parallel (every Some/None mask, n <= 4); adversarial part: streams of 0,1,2,15,16,17,100,1000,10^4 items with reversed / straggler / alternating / random delays on 2..16 workers; consumer part: for_each_buffered with buffer sizes {1,2,7,n-1,n,n+1,10^5} and the other consumers. One execution = one stream driven to completion; non-trivial if >= 2 items were in flight together; distinct by (operator, n, forced order or delay seed, mask)".into(),
+		rule: "exhaustive part: for n = 0..5 items every one of the n! completion orders is forced with a turnstile for map_blob_parallel, filter_map_blob_parallel (every retain mask, n <= 4) and from_coord_iter_parallel (every Some/None mask, n <= 4); adversarial part: streams of 0,1,2,15,16,17,100,1000,10^4 items with reversed / straggler / alternating / random delays on 2..16 workers; consumer part: for_each_buffered with buffer sizes {0,1,2,7,n-1,n,n+1,10^5} over plain sources and sources that must not be polled after their end; coordinates on levels 7..31 and the other consumers. One execution = one stream driven to completion; non-trivial if >= 2 items were in flight together; distinct by (operator, n, forced order or delay seed, mask)".into(),
 		assumptions: vec![
 			"the order in which the callbacks returned (atomic sequence number) is taken as the completion order".into(),
 			"forced orders need n runnable tokio workers (8 are configured); on machines with fewer than 6 CPUs the exhaustive part reports inconclusive".into(),
@@ -63,8 +63,15 @@ fn coord(i: usize) -> TileCoord3 {
 }
 
 fn coords(n: usize) -> Vec<TileCoord3> {
-	// unique by construction: enumerate a 2^k grid on level 14
-	(0..n).map(|i| TileCoord3::new((i % 128) as u32, (i / 128) as u32, 14).unwrap()).collect()
+	// unique by construction: enumerate a 128-wide grid, spread over levels up to the deepest one (31)
+	(0..n).map(|i| TileCoord3::new((i % 128) as u32, (i / 128) as u32, [14u8, 31, 30, 7, 22][i % 5]).unwrap()).collect()
+}
+
+/// a source that, like `futures::stream::unfold`, must not be polled again once it has returned `None`
+fn strict_source(items: Vec<(TileCoord3, Blob)>) -> TileStream<'static> {
+	use futures::StreamExt;
+	let it = items.into_iter();
+	TileStream::from_stream(futures::stream::unfold(it, |mut it| async move { it.next().map(|x| (x, it)) }).boxed())
 }
 
 fn input_blob(c: &TileCoord3) -> Blob {
@@ -435,7 +442,8 @@ fn consumers(cx: &CaseCtx, rep: &mut Report) {
 	let cs = coords(n);
 	let items: Vec<(TileCoord3, Blob)> = cs.iter().map(|c| (*c, input_blob(c))).collect();
 	let same = |a: &[(TileCoord3, Blob)], b: &[(TileCoord3, Blob)]| a.len() == b.len() && a.iter().zip(b).all(|(x, y)| x.0 == y.0 && x.1.as_slice() == y.1.as_slice());
-	let mut sizes = vec![1usize, 2, 7, 100_000];
+	// size 0 behaves like 1 (a chunk is handed over as soon as it holds at least `size` items)
+	let mut sizes = vec![0usize, 1, 2, 7, 100_000];
 	for s in [n.saturating_sub(1), n, n + 1] {
 		if s > 0 {
 			sizes.push(s);
@@ -447,7 +455,7 @@ fn consumers(cx: &CaseCtx, rep: &mut Report) {
 			let r = guard::catch(|| {
 				guard::block_on_mt(4, async {
 					let mut chunks: Vec<Vec<(TileCoord3, Blob)>> = vec![];
-					let s = TileStream::from_vec(items.clone());
+					let s = if (size + n) % 2 == 0 { strict_source(items.clone()) } else { TileStream::from_vec(items.clone()) };
 					let s = if parallel { s.map_blob_parallel(|b| b) } else { s };
 					s.for_each_buffered(size, |v| chunks.push(v)).await;
 					chunks
@@ -461,6 +469,7 @@ fn consumers(cx: &CaseCtx, rep: &mut Report) {
 					rep.nontrivial(fnv(format!("buf{n}/{size}/{parallel}").as_bytes()));
 					let w = json!({"n": n, "buffer": size, "parallel_stage": parallel, "chunk_sizes": chunks.iter().take(20).map(|c| c.len()).collect::<Vec<_>>()});
 					let last = chunks.len().saturating_sub(1);
+					let size = size.max(1);
 					for (i, c) in chunks.iter().enumerate() {
 						if c.is_empty() || c.len() > size || (i != last && c.len() != size) {
 							rep.violation("for_each_buffered|chunk-size", "chunk sizes are not `size, size, …, rest`", w.clone());
